@@ -141,6 +141,18 @@ type fakeCF struct {
 
 func recName(n string) string { return n + ".z1.example" }
 
+// recPrioTgt: SvcPriority and TargetName of the stored records differ from record to record (priority 0, the alias form,
+// and an explicit target among them); publishing changes neither.
+func recPrioTgt(n string) (int, string) {
+	switch n {
+	case "b":
+		return 0, "pool.z1.example."
+	case "c":
+		return 16, "svc.z1.example."
+	}
+	return 1, "."
+}
+
 func newFakeCF(init []pubRec, quoted bool) *fakeCF { return newFakeCFSized(init, quoted, false, 0) }
 
 // lead: number of other records the zone lists before the three pages of the specification (a multiple of the page size): a
@@ -157,7 +169,8 @@ func newFakeCFSized(init []pubRec, quoted, bigPages bool, lead int) *fakeCF {
 		for _, p := range r.Params {
 			ps = append(ps, concParam(p, quoted))
 		}
-		slots[idx] = &fakeRec{ID: "rec-" + r.Name, Name: recName(r.Name), Value: strings.Join(ps, " "), Prio: 1, Tgt: "."}
+		prio, tgt := recPrioTgt(r.Name)
+		slots[idx] = &fakeRec{ID: "rec-" + r.Name, Name: recName(r.Name), Value: strings.Join(ps, " "), Prio: prio, Tgt: tgt}
 	}
 	for i := range slots {
 		if slots[i] == nil {
@@ -244,9 +257,9 @@ func (f *fakeCF) handle(w http.ResponseWriter, req *http.Request) {
 		}
 		var body struct {
 			Data struct {
-				Priority int    `json:"priority"`
-				Target   string `json:"target"`
-				Value    string `json:"value"`
+				Priority *int    `json:"priority"`
+				Target   *string `json:"target"`
+				Value    *string `json:"value"`
 			} `json:"data"`
 		}
 		if err := json.NewDecoder(req.Body).Decode(&body); err != nil {
@@ -255,7 +268,17 @@ func (f *fakeCF) handle(w http.ResponseWriter, req *http.Request) {
 		}
 		for _, r := range f.recs {
 			if r.ID == id {
-				r.Value, r.Prio, r.Tgt = body.Data.Value, body.Data.Priority, body.Data.Target
+				// the API replaces the record's data object: a member the request leaves out is gone
+				r.Value, r.Prio, r.Tgt = "", -1, "<lost>"
+				if body.Data.Value != nil {
+					r.Value = *body.Data.Value
+				}
+				if body.Data.Priority != nil {
+					r.Prio = *body.Data.Priority
+				}
+				if body.Data.Target != nil {
+					r.Tgt = *body.Data.Target
+				}
 				f.patches = append(f.patches, strings.TrimSuffix(r.Name, ".z1.example"))
 				fmt.Fprintln(w, `{"success": true, "errors": []}`)
 				return
@@ -359,7 +382,7 @@ func replayPubCase(c *pubCase, idx int) (diff string) {
 				f.mu.Unlock()
 				return fmt.Sprintf("%s: stored value of %s: spec %v, code %q", where, want.Name, want.Params, r.Value)
 			}
-			if r.Prio != 1 || r.Tgt != "." {
+			if wp, wt := recPrioTgt(want.Name); r.Prio != wp || r.Tgt != wt {
 				f.mu.Unlock()
 				return fmt.Sprintf("%s: priority/target of %s changed: %d %q", where, want.Name, r.Prio, r.Tgt)
 			}
